@@ -160,7 +160,11 @@ def viewOf (s : TState) : Option View → TState × List String
   | none => (s, [])
   | some v =>
     let w := filterT s v.minors v.preempt v.required
-    (w, dumpT "v" false 0 w)
+    -- hypotheses of `view_free` (Props/C07.lean), evaluated on every generated view: calcFreeWithPreemptible yields
+    -- a map with non-negative entries.  Printed only when violated (the implementation never prints it).
+    let fd := calcFree s v.preempt v.required
+    let hyp := nodupB (fd.map (·.1)) && amountsOK fd
+    (w, dumpT "v" false 0 w ++ (if hyp then [] else ["viewhyp 0"]))
 
 def runLine (d : DState) (line : String) : DState × List String :=
   let n := d.node
